@@ -33,7 +33,7 @@ func init() {
 	core.Register(&core.Property{
 		ID:    "C13",
 		Level: "model_checking",
-		Rule: "universe = 21 base patches (two changes of which the later has elisions after unequal numbers of -/+ lines, an interface method with an unnamed variadic parameter, expression, statement with context elisions, function declaration with elided parameters/body, imports incl. metavariable-named, two dependent changes, composite literal with elisions, for-header elision, repeated metavariable, pure addition / pure deletion between context elisions, identifier metavariables) x every single application and every pair (thorough: every triple for the short bases) of each layout transformation at every position: '#' line at each gap, blank line at each gap, naming the change and giving all changes the same name, a blank after the dots of a variadic parameter, renaming each metavariable to each of 5 names that also occur in the target files, regrouping / ';'-joining / reordering metavariable declarations, re-wrapping at each comma, re-indenting, context line <-> identical -/+ pair x 4 target files. " +
+		Rule: "universe = 22 base patches (two changes of which the later has elisions after unequal numbers of -/+ lines, an interface method with an unnamed variadic parameter, expression, statement with context elisions, function declaration with elided parameters/body, imports incl. metavariable-named, two dependent changes, composite literal with elisions, for-header elision, repeated metavariable, pure addition / pure deletion between context elisions, identifier metavariables) x every single application and every pair (thorough: every triple for the short bases) of each layout transformation at every position: '#' line at each gap, blank line at each gap, naming the change and giving all changes the same name, a blank after the dots of a variadic parameter, renaming each metavariable to each of 5 names that also occur in the target files, regrouping / ';'-joining / reordering metavariable declarations, re-wrapping at each comma, re-indenting, context line <-> identical -/+ pair x 4 target files. " +
 			"Differential oracle: the variant's result is canonically identical to the base patch's (and fails iff it fails); descriptions on stderr are exactly the '#' lines directly above the header. non-trivial = the base patch rewrites the file",
 		Assumptions: []string{"a transformation is only generated where it is meaning-preserving by the property's wording (metavariables that name an import are not renamed; new names do not occur literally in the pattern)"},
 		Bounds: func(tier string) map[string]any {
@@ -141,6 +141,9 @@ func c13Bases() []c13Base {
 		{id: "interface-variadic", renamable: nil,
 			lines: cat(pl("header", "@@"), pl("metaend", "@@"), pl("body", " type Store interface {", "-  Put(...string)", "+  PutAll(...string)", "   Get(k string, opts ...Option) string", " }")),
 			files: []string{"package p\n\ntype Store interface {\n\tPut(...string)\n\tGet(k string, opts ...Option) string\n}\n", "package p\n\ntype Store interface {\n\tPut(string)\n\tGet(k string, opts ...Option) string\n}\n", "package p\n\ntype Other interface {\n\tPut(...string)\n\tGet(k string, opts ...Option) string\n}\n", "package p\n\nfunc f() {\n\ttype Store interface {\n\t\tPut(...string)\n\t\tGet(k string, opts ...Option) string\n\t}\n}\n"}},
+		{id: "pm-two-elisions", renamable: nil,
+			lines: cat(pl("header", "@@"), pl("metaend", "@@"), pl("body", "-foo(..., 0, ...)", "+bar(..., 0, ...)")),
+			files: []string{fnBody("foo(1, 0, 2)"), fnBody("foo(0)", "foo(a, y, 0)"), fnBody("foo(1, 2)"), fnBody("foo(0, 0, 0)")}},
 		{id: "value-decl", renamable: []string{"x"},
 			lines: cat(pl("desc", "# value"), pl("header", "@@"), pl("meta", "var x expression"), pl("metaend", "@@"), pl("body", "-var v = foo(x)", "+var v = bar(x)")),
 			files: []string{"package p\n\nvar v = foo(1)\n", "package p\n\nfunc f() {\n\tvar v = foo(y)\n\t_ = v\n}\n", "package p\n\nvar w = foo(1)\n", "package p\n\nvar (\n\tv = foo(1)\n)\n"}},
